@@ -7,7 +7,7 @@
 (* All deviations are read-only: the wrong behaviour is a wrong or missing answer.  *)
 EXTENDS CompressorFraming, PaZipStream, TLC
 
-KnownIds == {"C02-KF3", "C02-KF7", "C02-KF8", "C02-KF13"}
+KnownIds == {"C02-KF3", "C02-KF7", "C02-KF8", "C02-KF16", "C02-KF17"}
 
 HasF(e, f) == f \in DOMAIN e
 
@@ -40,10 +40,9 @@ G2(e, subj) == /\ BadDecompress(e) /\ Current(e)
 (* set_mode to an identity decoder (NoCompressor) an earlier frame "decompresses" to the frame itself       *)
 (* (or to the frame behind a one-byte marker).                                                               *)
 G3(e, subj) == /\ BadDecompress(e) /\ ~Current(e)
-               /\ subj.fam \in {"adaptive", "realtime"}
                /\ e.ok
-               /\ \/ e.y = frames[e.id].f                         \* the frame itself
-                  \/ e.y.len + 1 = frames[e.id].f.len             \* the frame without a one-byte marker
+               /\ \/ subj.fam = "adaptive" /\ e.y = frames[e.id].f                 \* the frame itself
+                  \/ subj.fam = "realtime" /\ e.y.len + 1 = frames[e.id].f.len     \* the frame behind its marker byte
 
 (* C02-KF4: AdaptiveCompressor::compress(b"") panics in calculate_hash (data[0] of an empty slice).        *)
 G4(e, subj) == /\ subj.fam = "adaptive"
@@ -68,11 +67,14 @@ G6(e, subj) == /\ BadDecompress(e) /\ Current(e)
 (* not store literal bytes: decompress fabricates placeholder text.  Broken for every payload with a literal. *)
 G7(e, subj) == /\ BadDecompress(e) /\ Current(e)
                /\ subj.fam = "simdlz77"
+               /\ frames[e.id].x.len >= 1          \* the empty payload has no literal: it must round-trip
+               /\ e.ok                             \* placeholder bytes come back, not an error
 
 (* C02-KF8: PaZipCompressor with use_reference_encoding writes the reference byte encoding                  *)
 (* (compress_record_reference) but decompress parses the legacy type-byte layout.                            *)
 G8(e, subj) == /\ BadDecompress(e) /\ Current(e)
                /\ subj.fam = "pazip" /\ subj.preset \in {"reference", "reference_hash"}
+               /\ frames[e.id].x.len >= 1
 
 (* C02-KF9: decode_matches loops while 3 bits are available: 3..7 zero padding bits of the last byte are   *)
 (* parsed as the start of a Literal match and the call fails.                                                *)
@@ -135,6 +137,28 @@ G15(e, subj) == /\ BadDecompress(e) /\ Current(e)
                 /\ e.ok /\ e.y.len < frames[e.id].x.len
                 /\ (frames[e.id].x.len - e.y.len) % 65536 = 0
 
+(* C02-KF16: AdaptiveCompressor with AdaptiveConfig::evaluation_interval = 0 panics in maybe_adapt          *)
+(* (count % evaluation_interval) on the first compress once min_operations is reached.                        *)
+G16(e, subj) == /\ subj.fam = "adaptive" /\ subj.variant = "extremes-eval0"
+                /\ e.op = "panic" /\ e.in = "compress"
+                /\ e.msg = "attempt to calculate the remainder with a divisor of zero"
+
+(* C02-KF17: ReferenceEncoder::encode_* check their operand ranges with debug_assert only: in a release      *)
+(* build an operand outside the range of its kind is written truncated / wrapped and reads back as another    *)
+(* match.  Only operands OUTSIDE the documented ranges; inside them the encoder must be exact.                *)
+RefInRange(e) ==
+    CASE e.kind = "rle"   -> e.len \in 2..33
+      [] e.kind = "near"  -> e.d \in 2..9 /\ e.len \in 2..5
+      [] e.kind = "far1s" -> e.d \in 2..257 /\ e.len \in 2..33
+      [] e.kind = "far2s" -> e.d \in 258..65793 /\ e.len \in 2..33
+      [] e.kind = "far2l" -> e.d \in 0..65535 /\ e.len >= 34
+      [] e.kind = "far3l" -> e.d \in 0..16777215 /\ e.len >= 5
+      [] e.kind = "glob"  -> e.pos \in 0..16777215 /\ e.len >= 6
+      [] OTHER -> TRUE
+G17(e, subj) == /\ subj.fam = "pazipmech" /\ subj.variant = "refenc"
+                /\ e.op = "refenc" /\ e.ok /\ e.kind # "lit"
+                /\ ~RefInRange(e)
+
 DevApplies(id, e, subj) ==
     \/ id = "C02-KF1" /\ G1(e, subj)
     \/ id = "C02-KF2" /\ G2(e, subj)
@@ -151,6 +175,8 @@ DevApplies(id, e, subj) ==
     \/ id = "C02-KF13" /\ G13(e, subj)
     \/ id = "C02-KF14" /\ G14(e, subj)
     \/ id = "C02-KF15" /\ G15(e, subj)
+    \/ id = "C02-KF16" /\ G16(e, subj)
+    \/ id = "C02-KF17" /\ G17(e, subj)
 
 (* every deviation is a wrong or missing answer that leaves the abstract state alone *)
 KnownDeviation(id, e, subj) == DevApplies(id, e, subj) /\ UNCHANGED fvars
